@@ -4,7 +4,10 @@ use acme_common::crypto::{
 };
 use acme_common::logs::{set_log_system, DEFAULT_LOG_LEVEL};
 use acme_common::{clean_pid_file, init_server};
+#[cfg(not(feature = "breard_r_acmed_verif"))]
 use async_lock::RwLock;
+#[cfg(feature = "breard_r_acmed_verif")]
+use crate::verif_probe::traced::RwLock;
 use clap::{Arg, ArgAction, Command};
 use log::error;
 use std::sync::Arc;
